@@ -176,6 +176,54 @@ theorem scan_contract_unsound :
   rw [hw.2.1] at this
   exact Bool.noConfusion this
 
+/-! ## Compaction -/
+
+theorem visible_no_dead (i : Nat) (rows : List Row) (bl : List (List Nat)) :
+    ({ id := i, rows := rows, dead := [], blocks := bl } : RowSet).visible = rows := by
+  unfold RowSet.visible liveRows
+  have h := tagged_map_fst { id := i, rows := rows, dead := [], blocks := bl }
+  simp only at h
+  have hall : ∀ x ∈ ({ id := i, rows := rows, dead := [], blocks := bl } : RowSet).tagged, x.2 = true := by
+    intro x hx
+    unfold RowSet.tagged at hx
+    obtain ⟨y, _, rfl⟩ := List.mem_map.1 hx
+    simp
+  rw [List.filter_eq_self.2 hall]
+  exact h
+
+/-- A compaction pass over ≥ 2 key-sorted row-sets leaves one row-set holding exactly the visible
+rows, in key order: after it the concatenating scan IS sorted (until the next INSERT). -/
+theorem compaction_sorted_perm (pk : List Nat) (hpk : pk ≠ []) (n : Nat) (l : List RowSet)
+    (hs : ∀ rs ∈ l, SortedBy (keyCmp (ascKeys pk)) rs.visible) :
+    (concatScan (compactAll pk n l).1).Perm (concatScan l)
+      ∧ (2 ≤ l.length → SortedBy (keyCmp (ascKeys pk)) (concatScan (compactAll pk n l).1)) := by
+  have hpk' : pk.isEmpty = false := by cases pk <;> simp_all
+  unfold compactAll
+  by_cases hlen : l.length ≤ 1
+  · simp only [hlen, if_true]
+    exact ⟨List.Perm.refl _, fun h => by omega⟩
+  · simp only [hlen, if_false, hpk', Bool.false_eq_true]
+    have hm := merge_iter_sorted (ascKeys pk) (l.map RowSet.visible) (by
+      intro x hx
+      obtain ⟨rs, hrs, rfl⟩ := List.mem_map.1 hx
+      exact hs rs hrs)
+    have hflat : (l.map RowSet.visible).flatten = concatScan l := by
+      simp [concatScan, List.flatMap]
+    split
+    next hemp =>
+      have : mergeK (keyCmp (ascKeys pk)) (totalLen (l.map RowSet.visible)) (l.map RowSet.visible) = [] := by
+        simpa using hemp
+      refine ⟨?_, fun _ => by simp [concatScan, SortedBy]⟩
+      rw [← hflat]
+      have := hm.2
+      rw [‹mergeK _ _ _ = []›] at this
+      simpa [concatScan] using this
+    next hne =>
+      simp only [concatScan, List.flatMap_cons, List.flatMap_nil, List.append_nil, visible_no_dead]
+      exact ⟨by rw [← concatScan, ← hflat]; exact hm.2, fun _ => hm.1⟩
+
+example : (compactAll [0] 2 witnessLayout).1.map (·.rows) = [[[.i32 1], [.i32 2], [.i32 5], [.i32 6], [.i32 7], [.i32 9]]] := by decide
+
 /-! ## The planner's order analysis and the `useless-order` rule -/
 
 /-- What the planner assumes of the storage engine (`Config.table_is_sorted_by_primary_key`):
